@@ -39,9 +39,12 @@ theorem ilp_resolute_optimal (solve : Program → Option Assignment) (hs : Solve
       sumOver W score = MaxWelfare.optValue I score init ∧
       ∃ o ∈ MaxWelfare.allOptima I score init, o.Perm W := by
   obtain ⟨a, ha, hfa, hval, hmem⟩ := base_solve_spec hs I score init hnd hinit
-  refine ⟨partialAlloc (freeVars I init) a ++ init, ?_, ?_, ?_, ?_⟩
-  · unfold resolute
-    rw [ha]
+  have hres : resolute solve I score init = .ok (partialAlloc (freeVars I init) a ++ init) := by
+    unfold resolute
+    by_cases hemp : (freeVars I init).isEmpty = true
+    · rw [if_pos hemp, List.isEmpty_iff.1 hemp]; rfl
+    · rw [if_neg hemp, ha]
+  refine ⟨partialAlloc (freeVars I init) a ++ init, hres, ?_, ?_, ?_⟩
   · unfold Inst.isFeasible Inst.totalCost at hfa ⊢
     rw [costOf_perm I.cost List.perm_append_comm]
     exact hfa
@@ -94,7 +97,7 @@ theorem sublist_eq_of_perm {s t vars : List Pid} (hv : vars.Nodup) (hs : s.Subli
 
 /-- Under `OracleSpec`, for a duplicate-free instance and a feasible initial allocation, the irresolute ILP call
     * terminates: the fuel `2^n` (n = number of projects outside the initial allocation) is never exhausted, and the
-      solver is called exactly `(number of optima) + 1 ≤ 2^n + 1` times;
+      solver is called exactly `(number of optima) + 1 ≤ 2^n + 1` times (not at all when n = 0);
     * returns `L.map (· ++ init)` where `L` (the partial allocations in discovery order) has no duplicates, no two of
       its members have the same set of projects, and `L.map (init ++ ·)` is a permutation of `allOptima`:
       every welfare-maximal feasible allocation extending `init` is returned exactly once. -/
@@ -106,7 +109,8 @@ theorem ilp_irresolute_all_optima (ask : Oracle) (hask : OracleSpec ask) (I : In
       L.Nodup ∧
       L.Pairwise (fun s t => ¬ (s ++ init).Perm (t ++ init)) ∧
       (L.map (fun s => init ++ s)).Perm (MaxWelfare.allOptima I score init) ∧
-      (irresoluteRun ask I score init).programs.length = (MaxWelfare.allOptima I score init).length + 1 ∧
+      (irresoluteRun ask I score init).programs.length =
+        (if (freeVars I init).isEmpty then 0 else (MaxWelfare.allOptima I score init).length + 1) ∧
       (irresoluteRun ask I score init).programs.length ≤ 2 ^ (freeVars I init).length + 1 := by
   obtain ⟨L, hL1, hL2, hL3⟩ := irresoluteRunFuel_spec ask hask I score init hnd hinit
     (2 ^ (freeVars I init).length) (optSupports_length_le I score init)
@@ -127,10 +131,11 @@ theorem ilp_irresolute_all_optima (ask : Oracle) (hask : OracleSpec ask) (I : In
     exact hL2.map _
   · rw [allOptima_eq_map, List.length_map]
     exact hL3
-  · have h1 : (irresoluteRun ask I score init).programs.length = (optSupports I score init).length + 1 := hL3
+  · have h1 : (irresoluteRun ask I score init).programs.length = expectedCalls I score init := hL3
     rw [h1]
     have := optSupports_length_le I score init
-    omega
+    unfold expectedCalls
+    split <;> omega
 
 /-- the same for a fixed solver -/
 theorem ilp_irresolute_all_optima_fixed (solve : Program → Option Assignment) (hs : SolverSpec solve) (I : Inst)
@@ -140,6 +145,51 @@ theorem ilp_irresolute_all_optima_fixed (solve : Program → Option Assignment) 
       (L.map (fun s => init ++ s)).Perm (MaxWelfare.allOptima I score init) := by
   obtain ⟨L, _, h2, h3, _, h5, _⟩ := ilp_irresolute_all_optima (fun _ => solve) (fun _ => hs) I score init hnd hinit
   exact ⟨L, h2, h3, h5⟩
+
+/-! ### the solver is only trusted on programs that have variables
+
+  python-mip refuses a model without variables ("Model has no variables. Nothing to optimize.", status OTHER, `x = None`)
+  although the empty assignment is a feasible, optimal point of it: the bundled solver does NOT satisfy `SolverSpec` on
+  variable-free programs.  Since the code returns the initial allocation without calling the solver when no project is
+  left to decide (fix c7ce4cf, D46), the theorems above hold under the weaker `SolverSpecNE` / `OracleSpecNE`, which say
+  nothing about such programs. -/
+
+theorem ilp_resolute_optimal_NE (solve : Program → Option Assignment) (hs : SolverSpecNE solve) (I : Inst)
+    (score : Pid → Rat) (init : List Pid) (hnd : I.projects.Nodup) (hinit : I.isFeasible init = true) :
+    ∃ W, resolute solve I score init = .ok W ∧ I.isFeasible W = true ∧
+      sumOver W score = MaxWelfare.optValue I score init ∧
+      ∃ o ∈ MaxWelfare.allOptima I score init, o.Perm W := by
+  rw [← resolute_patch]
+  exact ilp_resolute_optimal (patch solve) (patch_spec hs) I score init hnd hinit
+
+theorem ilp_irresolute_all_optima_NE (ask : Oracle) (hask : OracleSpecNE ask) (I : Inst) (score : Pid → Rat)
+    (init : List Pid) (hnd : I.projects.Nodup) (hinit : I.isFeasible init = true) :
+    ∃ L : List (List Pid),
+      (irresoluteRun ask I score init).result = .ok L ∧
+      irresolute ask I score init = .ok (L.map (fun s => s ++ init)) ∧
+      L.Nodup ∧
+      L.Pairwise (fun s t => ¬ (s ++ init).Perm (t ++ init)) ∧
+      (L.map (fun s => init ++ s)).Perm (MaxWelfare.allOptima I score init) ∧
+      (irresoluteRun ask I score init).programs.length =
+        (if (freeVars I init).isEmpty then 0 else (MaxWelfare.allOptima I score init).length + 1) ∧
+      (irresoluteRun ask I score init).programs.length ≤ 2 ^ (freeVars I init).length + 1 := by
+  have h := ilp_irresolute_all_optima (fun k => patch (ask k)) (fun k => patch_spec (hask k)) I score init hnd hinit
+  have e : irresoluteRun (fun k => patch (ask k)) I score init = irresoluteRun ask I score init :=
+    irresoluteRunFuel_patch ask I score init _
+  unfold irresolute at h ⊢
+  rw [e] at h
+  exact h
+
+/-- no project left to decide: both calls return the initial allocation WHATEVER the solver does — it is not called -/
+theorem ilp_no_free_project (solve : Program → Option Assignment) (ask : Oracle) (I : Inst) (score : Pid → Rat)
+    (init : List Pid) (hfree : freeVars I init = []) :
+    resolute solve I score init = .ok init ∧ irresolute ask I score init = .ok [init] ∧
+      (irresoluteRun ask I score init).programs = [] := by
+  have hemp : (freeVars I init).isEmpty = true := List.isEmpty_iff.2 hfree
+  refine ⟨?_, ?_, ?_⟩
+  · unfold resolute; rw [if_pos hemp]
+  · unfold irresolute irresoluteRun irresoluteRunFuel; rw [if_pos hemp]; rfl
+  · unfold irresoluteRun irresoluteRunFuel; rw [if_pos hemp]
 
 /-- What the membership test `if previous_partial_alloc not in all_partial_allocs` does: under the invariant of the
     loop and `SolverSpec`, the support of every answer to a program with the cuts is NOT yet in the list, so the
